@@ -287,6 +287,13 @@ def poke (s : St) (o : Obj) (v : Val) : St :=
   | none => s
   | some i => { s with heap := upd s.heap i (some v) }
 
+/-- `any_cast<T&>(a) = v;` — mutation of the held object through the reference form; `false`: the
+    cast threw `bad_any_cast` and nothing was written. -/
+def pokeRef (s : St) (o : Obj) (v : Val) : St × Bool :=
+  match castRef s o v.tag with
+  | none => (s, false)
+  | some i => ({ s with heap := upd s.heap i (some v) }, true)
+
 /-- The value held by a container (`none` when empty). -/
 def held (s : St) (o : Obj) : Option Val := deref s (content s o)
 
@@ -302,6 +309,7 @@ inductive Op where
   | swap (a b : Nat) (free : Bool)              -- a.swap(b) / swap(a, b) (`lhs.swap(rhs)`)
   | destroy (a : Nat)                           -- ~any()
   | poke (a : Nat) (v : Val)
+  | pokeRef (a : Nat) (v : Val)                 -- any_cast<T&>(a) = v
   | castVal (a : Nat) (t : Tag) (f : VForm)
   | castPtr (a : Option Nat) (t : Tag) (const : Bool)   -- `none`: null pointer argument
   deriving Repr, Inhabited
@@ -337,6 +345,11 @@ def step (n : Nat) (s : St) : Op → St × Out
     if liveN s a then (dtor s (.named a), .done) else (s, .invalid)
   | .poke a v =>
     if liveN s a then (poke s (.named a) v, .done) else (s, .invalid)
+  | .pokeRef a v =>
+    if liveN s a then
+      let r := pokeRef s (.named a) v
+      (r.1, if r.2 then .done else .cast none)
+    else (s, .invalid)
   | .castVal a t f =>
     if liveN s a then
       let r := castValue s (.named a) t f
@@ -444,6 +457,11 @@ def specStep (n : Nat) (p : APool) : Op → APool × Out
     | none => (p, .invalid)
     | some none => (p, .done)
     | some (some w) => if w.tag = v.tag then (upd p a (some (some v)), .done) else (p, .done)
+  | .pokeRef a v =>
+    match p a with
+    | none => (p, .invalid)
+    | some none => (p, .cast none)
+    | some (some w) => if w.tag = v.tag then (upd p a (some (some v)), .done) else (p, .cast none)
   | .castVal a t f =>
     match p a with
     | none => (p, .invalid)
